@@ -47,7 +47,7 @@ ARG_TEMPLATES = ['(l)', '(d)', '(s)', '(l, l)', '(s, "a")', '(s, "")', '(l, v =>
                  '(l, (a, b) => a)', '(s, c => c)', '(l, 1)', '(l, 0, 1)', '(d, "0")', '(d, "new", l)', '(l, "")', '(s, "a", "aa")',
                  '(x)', '(x, "a")', '(x, v => v)',
                  # containers of containers: anything that folds / flattens / joins its elements
-                 '(d, d2)', '(d2, d, d)', '(l, d2)', '(d, d2, l)', '([d, d2])',
+                 '(d, d2)', '(d2, d, d)', '([d, d2])',
                  '([l, l])', '([s, s])', '([tt, tt])', '([l, l], (a, b) => a + b)', '([[l, l], l])']
 AT_CAP_MUTATIONS = {'push(l, 1)': 'l', 'insert(l, 0, 1)': 'l', 'l[0] = 1': 'l', 'l[-1] = 1': 'l', 'l[0] += 1': 'l',
                     'd["new"] = 1': 'd', 'd["0"] = 1': 'd', 'd[0] = 1': 'd', 'd[True] = 1': 'd', 'd["0"] += 1': 'd', 'd["new"] += 1': 'd'}
